@@ -68,6 +68,15 @@ def attribute(cin, items, with_index=False):
                 cur = (lines[k], [], k); k += 1
             if k < len(lines): out.append((lines[k], [it], True, k)); k += 1
             continue
+        if it[1] == 203:
+            # `203 Command too long` is decided before the busy test: it answers its own line on the spot (with a prompt) even
+            # while a command is in progress
+            tl = lambda j: j < len(lines) and len(lines[j].split(b'\0')[0].strip(b' \t\n\v\f\r')) >= 131072
+            if cur is None and not tl(k) and tl(k + 1):
+                cur = (lines[k], [], k); k += 1          # a command in progress that has produced no line yet
+            if cur is not None:
+                if k < len(lines): out.append((lines[k], [it], True, k)); k += 1
+                continue
         if cur is None:
             if k >= len(lines): break
             cur = (lines[k], [], k); k += 1
@@ -428,6 +437,26 @@ def p_c11_tele(tr, V, st):
                 c0 = cand.get(di, b'')
                 if m.group(2) not in memstr(c0) and m.group(2) not in memstr(c0.replace(b'\0', b'\xff')):    # `_getregex_buf` shows NUL as \377
                     V.append(dict(sig='C11 telemetry line shows text its device did not send on this connection', at=p.i, fd=fd, dev=di, line=repr(ln[:160]), stream_tail=repr(cand.get(di, b'')[-80:])))
+
+
+def p_c06_toolong(tr, V, st):
+    """a request line whose text (up to a NUL, white space stripped) is 131072 bytes or longer is answered `203 Command too long`
+    and nothing else; a shorter one never is"""
+    cv = client_views(tr)
+    lastto = {fd: c['to'] for fd, c in tr[-1].clients.items()} if tr else {}
+    for fd, v in cv.items():
+        if len(v.cin) < 100000: continue
+        items, _ = split_out(v.cout + lastto.get(fd, b''))
+        for ln, g, complete in attribute(v.cin, items):
+            if not complete or not g: continue
+            text = ln.split(b'\0')[0].strip(b' \t\n\v\f\r')
+            code = g[-1][1]
+            if code == 208 and len(text) < 131072: continue
+            if len(text) >= 100000: st['C06 request lines of 100 000 bytes and more answered'] += 1
+            if (len(text) >= 131072) != (code == 203):
+                V.append(dict(sig='C06 the 128 KiB limit on request lines is not enforced as documented', fd=fd, length=len(text), code=code, head=repr(text[:40])))
+            elif code == 203 and len(g) != 1:
+                V.append(dict(sig='C06 a too long request line produced more than its 203 reply', fd=fd, reply=repr(g)[:200]))
 
 
 def p_c06_served(tr, V, st):
